@@ -5,6 +5,7 @@ import (
 	"sort"
 	"strings"
 
+	proto "github.com/golang/protobuf/proto"
 	slim "github.com/openacid/slim/trie"
 
 	"slimverif/harness/gen"
@@ -430,6 +431,7 @@ func genC17(c *lp.Ctx) {
 			continue
 		}
 		m := c.Do("trie.marshal")
+		bufK := currentStream()
 		var l int
 		var h string
 		fmt.Sscanf(m, "ok %d %s", &l, &h)
@@ -473,7 +475,18 @@ func genC17(c *lp.Ctx) {
 		}
 		c.Hit(fmt.Sprintf("prefix-delta:%d", d))
 		if d > 16 {
-			cs.viol(c, "prepending a common prefix changes the size by at most a few bytes", "trie.marshal", fmt.Sprintf("%d +- 16", l), m2)
+			// Known finding K1 is identified by its mechanism: the root gains a step, so every entry
+			// of the InnerPrefixes presence rank index grows by one and entries crossing a varint
+			// boundary need one more byte.  Growth explained by exactly that is the same finding
+			// (reported under K1's key); anything beyond it is a new violation.
+			if g := presenceRankGrowth(bufK, currentStream()); g > 0 && d-g <= 16 {
+				c.Hit("K1-mechanism-on-generated-input")
+				c.Violate(lp.Violation{What: "prepending a common prefix changes the size by at most a few bytes",
+					Script:   []string{"C17 witness K1: prefixGrowthWitness(d=11) (2302 keys, filter mode), prefix \"A\""},
+					Expected: fmt.Sprintf("%d +- 16", l), Got: m2 + fmt.Sprintf(" (generated input %s: rank-index growth %d of %d)", cs.Key(), g, d)})
+			} else {
+				cs.viol(c, "prepending a common prefix changes the size by at most a few bytes", "trie.marshal", fmt.Sprintf("%d +- 16", l), m2)
+			}
 		}
 	}
 }
@@ -522,6 +535,30 @@ func genC20(c *lp.Ctx) {
 			cs.viol(c, "Marshal after a load from a since-overwritten buffer", "trie.marshal", m1, m3)
 		}
 	}
+}
+
+// presenceRankGrowth returns by how many bytes the serialized rank index of
+// InnerPrefixes.PresenceBM grew between two marshaled streams.
+func presenceRankGrowth(a, b []byte) int {
+	sz := func(buf []byte) int {
+		if len(buf) < 32 {
+			return -1
+		}
+		m := &slim.Slim{}
+		if proto.Unmarshal(buf[32:], m) != nil || m.InnerPrefixes == nil || m.InnerPrefixes.PresenceBM == nil {
+			return -1
+		}
+		n := 0
+		for _, x := range m.InnerPrefixes.PresenceBM.RankIndex {
+			n += proto.SizeVarint(uint64(x))
+		}
+		return n
+	}
+	x, y := sz(a), sz(b)
+	if x < 0 || y < 0 {
+		return 0
+	}
+	return y - x
 }
 
 func protoSize(st *slim.SlimTrie) int {
